@@ -80,6 +80,13 @@ def gen_file(rng, pn=""):
     pns[0] = pns[0].replace("combo:", "")
     n = rng.randint(max(3, len(pns)), 8)
     where = dict(zip(rng.sample(range(n), len(pns)), pns))      # declaration index -> patch kind it must contain a site for
+    DECL_LEVEL = ("const-block-to-var", "var-to-const", "type-kind", "method-to-func", "func-sig", "func-rename")
+    # the first declaration, right below a commented package line and without a doc comment, changed at declaration level
+    first_special = rng.random() < 0.35 and any(x in DECL_LEVEL for x in pns)
+    if first_special:
+        kx = next(x for x in pns if x in DECL_LEVEL)
+        where = {i: v for i, v in where.items() if v != kx and i != 0}
+        where[0] = kx
     parts = []
     hdr = ""
     if rng.random() < 0.5:
@@ -88,15 +95,15 @@ def gen_file(rng, pn=""):
         hdr += "//go:build linux\n\n"
     if rng.random() < 0.5:
         hdr += "// Package p is documented.\n"
-    hdr += "package p" + (" // pkg-trailing" if rng.random() < 0.3 else "") + "\n"
+    hdr += "package p" + (" // pkg-trailing" if rng.random() < 0.3 or first_special else "") + "\n"
     parts.append(hdr)
-    if rng.random() < 0.6 or "import-replace" in pns:
+    if (rng.random() < 0.6 and not first_special) or "import-replace" in pns:
         parts.append("import (\n\t\"fmt\" // fmt-trailing\n\t// about os\n\t\"os\"\n)\n")
     for i in range(n):
         d = ""
-        if rng.random() < 0.35:
+        if rng.random() < 0.35 and not (first_special and i == 0):
             d += "// free-between %d\n\n" % i
-        if rng.random() < 0.6:
+        if rng.random() < 0.6 and not (first_special and i == 0):
             d += comment_lines(rng, "doc", i) + "\n"
         if rng.random() < 0.15:
             d += "//go:generate tool %d\n" % i
